@@ -5,13 +5,18 @@
    decomposition of DcfData.from_traj_voronoi).  They are tied to /repo on every run by the correspondence families
    of harness/props/C16.py (dcf_1d, dcf_2d, from_traj_voronoi).
 
-   Full theorems: everything about the 1-D code; invariances of the shoelace area; soundness of clipping; equivariance of
-   the cell predicate; product layouts.
-   NOT proved (decided by correspondence / implementation-level oracles only):  completeness of clipping
-   (polygon = cell, hence "2-D weight = cell area" as a theorem - see C16_2d_polygon_in_cell_partial), order-independence
-   of the clipped polygon, the 3-D qhull path, and the IQR outlier rule (modelled and executed, not reasoned about). *)
+   Full theorems: everything about the 1-D code (incl. the telescoping sum of interior weights); invariances of the shoelace
+   area; soundness of clipping; additivity of the signed shoelace area under cutting (every vertex list, every proper
+   half-plane) and the resulting dissection of the start box into the kept polygon (vertices in the cell) and the pieces cut
+   off (vertices beyond the cutting bisector); the start box contains the cell; equivariance of the cell predicate; product
+   layouts; exactness / positivity of the modelled outlier replacement.
+   NOT proved (decided by correspondence / implementation-level oracles only): region-level completeness of clipping
+   (every point of the cell is a convex combination of the polygon's vertices) and the measure-theoretic step from the
+   dissection to "2-D weight = Lebesgue area of the cell" (see C16_2d_polygon_in_cell_partial, C16_2d_cell_dissection);
+   order independence of the clipped polygon; the 3-D qhull path; numpy's percentile arithmetic is modelled, not verified. *)
 From Coq Require Import QArith Qabs List Permutation.
-From MrVerif Require Import Model.Voronoi1D Model.Voronoi2D Proofs.Voronoi1DProofs Proofs.Voronoi2DProofs.
+From Coq Require Import Sorted.
+From MrVerif Require Import Model.Voronoi1D Model.Voronoi2D Proofs.Voronoi1DProofs Proofs.Voronoi2DProofs Proofs.Voronoi2DArea Proofs.Voronoi2DOutlier.
 Import ListNotations.
 Open Scope Q_scope.
 
@@ -67,6 +72,18 @@ Proof.
 Qed.
 Print Assumptions C16_1d_interior.
 
+(* sorted distinct samples: the code returns the central differences themselves, and the interior weights telescope to the
+   length they cover: from the midpoint of the first gap to the midpoint of the last gap *)
+Theorem C16_1d_sorted_code : forall l, StronglySorted Qlt l -> Forall2 Qeq (dcf_1d l) (central_diff l).
+Proof. exact dcf_1d_sorted. Qed.
+Print Assumptions C16_1d_sorted_code.
+
+Theorem C16_1d_interior_sum : forall l, StronglySorted Qlt l -> (3 <= length l)%nat ->
+  qsum1 (removelast (tl (dcf_1d l)))
+  == (nth (length l - 1) l 0 + nth (length l - 2) l 0) / 2 - (nth 0 l 0 + nth 1 l 0) / 2.
+Proof. exact dcf_1d_interior_sum. Qed.
+Print Assumptions C16_1d_interior_sum.
+
 (* ===================== 2-D ===================== *)
 
 (* shoelace area: translation invariant, |det|-equivariant under any linear map, a^2 under isotropic scaling,
@@ -97,6 +114,40 @@ Print Assumptions C16_2d_polygon_in_cell_partial.
 Theorem C16_2d_polygon_in_box : forall g box p others x, Forall (sat g) box -> In x (cell_poly box p others) -> sat g x.
 Proof. exact cell_poly_in_box. Qed.
 Print Assumptions C16_2d_polygon_in_box.
+
+(* cutting is additive for the signed shoelace area, for EVERY vertex list and every proper half-plane: the kept piece and
+   the piece cut off (the clip against the complementary closed half-plane) together have the signed area of the input *)
+Theorem C16_2d_clip_area_additive : forall h l, ~ n2 h == 0 ->
+  shoelace2 (clip h l) + shoelace2 (clip (negh h) l) == shoelace2 l.
+Proof. exact clip_area_additive. Qed.
+Print Assumptions C16_2d_clip_area_additive.
+
+Theorem C16_2d_clip_area_additive_abs : forall h l,
+  ~ n2 h == 0 -> 0 <= shoelace2 (clip h l) -> 0 <= shoelace2 (clip (negh h) l) ->
+  area (clip h l) + area (clip (negh h) l) == area l.
+Proof. exact clip_area_additive_abs. Qed.
+Print Assumptions C16_2d_clip_area_additive_abs.
+
+(* hence the construction of a cell is a dissection of the start box: signed area of the box = signed area of the polygon kept
+   for p + signed areas of the pieces cut off; every vertex of the kept polygon is in the cell of p (above), every vertex of
+   a piece cut off is at least as close to the site that cut it as to p, and all pieces stay inside the box.
+   Together: the shoelace value is pinned between "inside the cell" and "box minus the pieces that are outside the open
+   cell".  What is still NOT a theorem is the last, purely measure-theoretic step (shoelace of a polygon with vertices in a
+   convex set = Lebesgue measure of a subset of it), so "weight = Lebesgue area of the cell" stays informal. *)
+Theorem C16_2d_cell_dissection : forall p others box, (forall q, In q others -> ~ peq p q) ->
+  shoelace2 box == shoelace2 (cell_poly box p others) + qsum2 (map shoelace2 (discarded box p others)).
+Proof. intros p others box. apply cell_poly_dissection. Qed.
+Print Assumptions C16_2d_cell_dissection.
+
+Theorem C16_2d_discarded_far : forall p others box D, In D (discarded box p others) ->
+  exists q, In q others /\ Forall (fun x => dist2 x q <= dist2 x p) D.
+Proof. exact discarded_far. Qed.
+Print Assumptions C16_2d_discarded_far.
+
+Theorem C16_2d_discarded_in_box : forall g p others box D,
+  Forall (sat g) box -> In D (discarded box p others) -> Forall (sat g) D.
+Proof. exact discarded_in_box. Qed.
+Print Assumptions C16_2d_discarded_in_box.
 
 (* the start box loses nothing: with the far corner sites of the code (10 * max|k|) the cell of every real site lies in
    the box [-20 m, 20 m]^2 from which the clipping starts *)
@@ -129,6 +180,33 @@ Theorem C16_product_cell : forall X Y px py x y, In px X -> In py Y ->
   (cell2 (list_prod X Y) (px, py) (x, y) <-> cell1 X px x /\ cell1 Y py y).
 Proof. exact cell2_product. Qed.
 Print Assumptions C16_product_cell.
+
+(* ===================== the IQR outlier rule (as modelled) ===================== *)
+(* exactly the cells whose area is above the fence q3 + 1.5 IQR are replaced, all by the same fill value; the others are
+   returned unchanged *)
+Theorem C16_outlier_replaced_exactly : forall dcf,
+  Forall2 (fun v w => (fence dcf < v -> w = fillv dcf) /\ (v <= fence dcf -> w = v)) dcf (replace_outliers dcf).
+Proof. exact replace_outliers_exact. Qed.
+Print Assumptions C16_outlier_replaced_exactly.
+
+(* the fill value is the mean of a non-empty slice of the sorted areas consisting of accepted areas only: it lies between
+   the smallest area and the fence (the rule needs one accepted area; that holds whenever the list is non-empty, not proved) *)
+Theorem C16_outlier_fill_bounds : forall dcf lo hi,
+  Forall (fun v => lo <= v /\ v <= hi) dcf -> (exists v, In v dcf /\ v <= fence dcf) ->
+  lo <= fillv dcf /\ fillv dcf <= hi.
+Proof. exact fill_bounds. Qed.
+Print Assumptions C16_outlier_fill_bounds.
+
+Theorem C16_outlier_fill_accepted : forall dcf, (exists v, In v dcf /\ v <= fence dcf) ->
+  fillv dcf <= fence dcf /\ (forall x, In x (top_of dcf) -> In x dcf /\ x <= fence dcf).
+Proof. intros dcf H. split; [apply fill_le_fence; exact H | intros x; apply top_of_accepted]. Qed.
+Print Assumptions C16_outlier_fill_accepted.
+
+(* positivity survives the outlier rule *)
+Theorem C16_outlier_positive : forall dcf,
+  Forall (Qlt 0) dcf -> (exists v, In v dcf /\ v <= fence dcf) -> Forall (Qlt 0) (replace_outliers dcf).
+Proof. exact replace_outliers_positive. Qed.
+Print Assumptions C16_outlier_positive.
 
 (* ===================== from_traj_voronoi: the decomposition is NOT representation independent ===================== *)
 (* ky constant along k0 stored as (1,5,1) [broadcast] or (1,5,5) [dense], kx = 2 j + i/2 (sheared lines, (1,5,5)):
@@ -172,3 +250,14 @@ Example C16_example_from_traj_cartesian :
     (from_traj [ex_kz; {| kshape := [1; 3; 1]%nat; kdata := [0; 2; 4] |}; {| kshape := [1; 1; 3]%nat; kdata := [3; 0; -3] |}])
   = Some 6.
 Proof. vm_compute. reflexivity. Qed.
+
+(* the dissection on the 3 x 3 unit grid: box area 1600 = cell 1 + the twelve pieces cut off, all with the same orientation *)
+Example C16_example_dissection :
+  let g := flat_map (fun i => map (fun j => (i, j)) [-1; 0; 1]) [-1; 0; 1] in
+  let others := filter (fun q => negb (pt_eqb (0, 0) q)) (g ++ corners 1) in
+  Qred (shoelace2 (bigbox 1)) = 3200 /\
+  Qred (shoelace2 (cell_poly (bigbox 1) (0, 0) others)) = 2 /\
+  Qred (qsum2 (map shoelace2 (discarded (bigbox 1) (0, 0) others))) = 3198 /\
+  forallb (fun D => Qle_bool 0 (shoelace2 D)) (discarded (bigbox 1) (0, 0) others) = true /\
+  length (discarded (bigbox 1) (0, 0) others) = 12%nat.
+Proof. vm_compute. repeat split. Qed.
